@@ -80,15 +80,43 @@ theorem mergeNsr_absent (m : Mach) (s o : Nat) (h : dictGet? (dictOf m o) nsr = 
     mergeNsr m s o = (m, none) := by
   simp [mergeNsr, h]
 
-/-- `merge_all_results` when `self` is not empty and `other` has no `'num_skipped_reps'`:
-    exactly the merge loop -/
+theorem mergeGuard_none {a b : Res} (h : Compat a b) : mergeGuard a b = none := by
+  have hl := h.len
+  have ha := h.acc
+  cases hacc : a.acc <;> simp_all [mergeGuard, h.ty, h.name]
+
+/-- the validation pass succeeds when every pair of last results is compatible -/
+theorem checkNames_none (ds od : Dict) (A B : String → Nat) (m : Mach) (names : List String)
+    (hA : ∀ nm ∈ names, lastOf m ds nm = .ok (A nm))
+    (hB : ∀ nm ∈ names, lastOf m od nm = .ok (B nm))
+    (hc : ∀ nm ∈ names, ∃ ra rb, m.res[A nm]? = some ra ∧ m.res[B nm]? = some rb ∧ Compat ra rb) :
+    checkNames ds od m names = none := by
+  induction names with
+  | nil => rfl
+  | cons nm rest ih =>
+    have ihr := ih (fun n h => hA n (List.mem_cons_of_mem _ h)) (fun n h => hB n (List.mem_cons_of_mem _ h))
+      (fun n h => hc n (List.mem_cons_of_mem _ h))
+    unfold checkNames
+    split
+    · exact ihr
+    · obtain ⟨ra, rb, h1, h2, h3⟩ := hc nm List.mem_cons_self
+      simp only [hA nm List.mem_cons_self, hB nm List.mem_cons_self, h1, h2, mergeGuard_none h3]
+      exact ihr
+
+theorem checkNsr_absent (m : Mach) (s o : Nat) (h : dictGet? (dictOf m o) nsr = none) :
+    checkNsr m s o = none := by
+  simp [checkNsr, h]
+
+/-- `merge_all_results` when `self` is not empty, the validation pass succeeds and `other` has no
+    `'num_skipped_reps'`: exactly the merge loop -/
 theorem mergeAll_eq_mergeNames (m : Mach) (s o : Nat) (hs : s < m.sims.length) (ho : o < m.sims.length)
     (hne : dictOf m s ≠ []) (hnsro : dictGet? (dictOf m o) nsr = none)
+    (hchk : checkNames (dictOf m s) (dictOf m o) m ((dictOf m s).map (·.1)) = none)
     (hok : (mergeNames (dictOf m s) (dictOf m o) m ((dictOf m s).map (·.1))).2 = none) :
     mergeAll m s o = mergeNames (dictOf m s) (dictOf m o) m ((dictOf m s).map (·.1)) := by
   have hsm := mergeNames_sims (dictOf m s) (dictOf m o) m ((dictOf m s).map (·.1))
   unfold mergeAll
-  simp only [hs, ho, and_self, if_true, hne, if_false]
+  simp only [hs, ho, and_self, if_true, hne, if_false, hchk, checkNsr_absent m s o hnsro]
   generalize mergeNames (dictOf m s) (dictOf m o) m ((dictOf m s).map (·.1)) = q at hok hsm
   obtain ⟨m1, e1⟩ := q
   simp only at hok hsm
@@ -135,7 +163,8 @@ theorem mergeAll_sequence (s : Nat) (A : String → Nat) (B : Nat → String →
       exact ⟨xa, xb, h1, h3, h4⟩
     obtain ⟨p1, p2, p3⟩ := mergeNames_pointwise (dictOf m s) (dictOf m o) A (B o) _ m hnd hnsr hA
       (hB o (by simp)) hinj (hsep o (by simp)) hc1
-    have hstep := mergeAll_eq_mergeNames m s o hs hoo.1 hne hoo.2 p1
+    have hchk := checkNames_none (dictOf m s) (dictOf m o) A (B o) m _ hA (hB o (by simp)) hc1
+    have hstep := mergeAll_eq_mergeNames m s o hs hoo.1 hne hoo.2 hchk p1
     have hl := mergeNames_lists (dictOf m s) (dictOf m o) m ((dictOf m s).map (·.1))
     have hsm := mergeNames_sims (dictOf m s) (dictOf m o) m ((dictOf m s).map (·.1))
     rw [← hstep] at p2 p3 hl hsm
